@@ -1292,3 +1292,213 @@ Proof.
     rewrite eval_resample by assumption.
     rewrite IH; [reflexivity|]. intros q Hq. apply H. right. exact Hq.
 Qed.
+
+(* ========================================================================================== *)
+(* ROUND 2 ADDITIONS (append only)
+
+   Antiderivative
+     antideriv p t            := area (cut_left t p)     the integral of p from -inf to t
+                                 (Model/KSpace.v has an executable [prim] with
+                                  PrimProofs.prim_cut : prim p c == area (cut_left c p) = antideriv p c)
+     area_between a b p       := area (cut_right a (cut_left b p))
+     cut_left_lt_first, cut_left_first, cut_left_all, area_cut_left_twice
+     antideriv_before : t <= tfirst p -> antideriv p t == 0
+     antideriv_total  : sorted -> tlast p <= t -> antideriv p t == area p
+     antideriv_diff   : sorted -> a <= b -> antideriv p b - antideriv p a == area_between a b p
+   Corner-level bounds lifted to all times (same shape as Limits.corners_within / Limits.segs_within)
+     corner_bound G p         := Forall (fun tv => Qabs (snd tv) <= G) p
+     seg_bound S p            every segment has |v1 - v0| <= S * (t1 - t0)
+     max_abs_le, max_slope_le, seg_bound_nonneg
+     corner_bound_everywhere  : 0 <= G -> corner_bound G p -> forall t, Qabs (eval p t) <= G
+     corner_bound_everywhere_ne : p <> [] -> corner_bound G p -> forall t, Qabs (eval p t) <= G
+     seg_bound_everywhere     : sorted -> seg_bound S p -> inside p t -> inside p u ->
+                                Qabs (eval p t - eval p u) <= S * Qabs (t - u)
+     within_corners_implies_everywhere : both together
+*)
+
+Lemma cut_left_lt_first c p : c < tfirst p -> cut_left c p = [].
+Proof.
+  destruct p as [|[t0 v0] r]; [reflexivity|]. cbn [tfirst cut_left]. intro H.
+  case_ltb c t0 E; [reflexivity|lra].
+Qed.
+
+Lemma cut_left_first c p : cut_left c p = [] \/ tfirst (cut_left c p) = tfirst p.
+Proof.
+  destruct p as [|[t0 v0] r]; [left; reflexivity|]. cbn [cut_left].
+  case_ltb c t0 E0; [left; reflexivity|]. right.
+  case_eqb c t0 E1; [reflexivity|].
+  destruct r as [|[t1 v1] r]; [reflexivity|]. case_leb t1 c E2; reflexivity.
+Qed.
+
+Lemma cut_left_all p : forall t, sorted_strict (times p) -> tlast p <= t -> cut_left t p = p.
+Proof.
+  induction p as [|[t0 v0] r IH]; intros t Hs Ht; [reflexivity|].
+  destruct r as [|[t1 v1] r].
+  - cbn in Ht. cbn [cut_left]. case_ltb t t0 E0; [lra|]. case_eqb t t0 E1; reflexivity.
+  - rewrite tlast_cons2 in Ht. pose proof Hs as Hs'. destruct Hs' as [H01 Hst]. cbn [fst] in H01.
+    pose proof (tfirst_le_tlast _ Hst) as HL. cbn [tfirst] in HL.
+    rewrite cut_left_cons2. case_ltb t t0 E0; [lra|]. case_eqb t t0 E1; [lra|].
+    case_leb t1 t E2; [|lra]. rewrite (IH t Hst Ht). reflexivity.
+Qed.
+
+Lemma area_single tv : area [tv] = 0.
+Proof. destruct tv. reflexivity. Qed.
+
+Lemma area_cut_left_twice p : forall a b, sorted_strict (times p) -> a <= b ->
+  area (cut_left a (cut_left b p)) == area (cut_left a p).
+Proof.
+  induction p as [|[t0 v0] r IH]; intros a b Hs Hab; [reflexivity|].
+  destruct (Qlt_le_dec a t0) as [A0|A0].
+  { (* a left of everything *)
+    rewrite (cut_left_lt_first a ((t0, v0) :: r)) by (cbn [tfirst]; exact A0).
+    destruct (cut_left_first b ((t0, v0) :: r)) as [E|E].
+    - rewrite E. reflexivity.
+    - rewrite cut_left_lt_first; [reflexivity|]. rewrite E. cbn [tfirst]. exact A0. }
+  destruct (cut_left_head b t0 v0 r ltac:(lra)) as [s Es].
+  destruct (Qeq_dec a t0) as [A1|A1].
+  { (* a at the first corner: both sides are the single corner *)
+    rewrite Es.
+    assert (E1 : cut_left a ((t0, v0) :: s) = [(t0, v0)]).
+    { cbn [cut_left]. case_ltb a t0 E; [lra|]. case_eqb a t0 E'; [reflexivity|contradiction]. }
+    assert (E2 : cut_left a ((t0, v0) :: r) = [(t0, v0)]).
+    { cbn [cut_left]. case_ltb a t0 E; [lra|]. case_eqb a t0 E'; [reflexivity|contradiction]. }
+    rewrite E1, E2. reflexivity. }
+  assert (A2 : t0 < a) by lra.
+  destruct r as [|[t1 v1] r].
+  { (* single corner *)
+    cbn [cut_left]. case_ltb b t0 B0; [lra|]. case_eqb b t0 B1; [lra|].
+    cbn [cut_left]. reflexivity. }
+  pose proof Hs as Hs'. destruct Hs' as [H01 Hst]. cbn [fst] in H01.
+  rewrite (cut_left_cons2 b), (cut_left_cons2 a).
+  case_ltb b t0 B0; [lra|]. case_eqb b t0 B1; [lra|].
+  case_ltb a t0 A3; [lra|]. case_eqb a t0 A4; [contradiction|].
+  case_leb t1 b B2.
+  - destruct (cut_left_head b t1 v1 r B2) as [s1 Es1]. rewrite Es1.
+    rewrite cut_left_cons2. case_ltb a t0 A5; [lra|]. case_eqb a t0 A6; [contradiction|].
+    case_leb t1 a A7; [|reflexivity].
+    destruct (cut_left_head a t1 v1 s1 A7) as [s2 Es2].
+    destruct (cut_left_head a t1 v1 r A7) as [s3 Es3].
+    specialize (IH a b Hst Hab). rewrite Es1, Es2, Es3 in IH.
+    rewrite Es2, Es3, !area_cons2, IH. reflexivity.
+  - (* b inside the first segment, hence a too *)
+    case_leb t1 a A7; [lra|].
+    rewrite cut_left_cons2. case_ltb a t0 A5; [lra|]. case_eqb a t0 A6; [contradiction|].
+    case_leb b a A8.
+    + assert (Eab : a == b) by lra.
+      assert (E1 : cut_left a [(b, interp t0 v0 t1 v1 b)] = [(b, interp t0 v0 t1 v1 b)]).
+      { cbn [cut_left]. case_ltb a b E; [lra|]. case_eqb a b E'; [reflexivity|contradiction]. }
+      rewrite E1, !area_cons2, !area_single. rewrite Eab. reflexivity.
+    + rewrite !area_cons2, !area_single. rewrite interp_cut_l by lra. reflexivity.
+Qed.
+
+Definition antideriv (p : pwl) (t : Q) : Q := area (cut_left t p).
+Definition area_between (a b : Q) (p : pwl) : Q := area (cut_right a (cut_left b p)).
+
+Theorem antideriv_before p t : t <= tfirst p -> antideriv p t == 0.
+Proof.
+  unfold antideriv. destruct p as [|[t0 v0] r]; [reflexivity|]. cbn [tfirst cut_left]. intro H.
+  case_ltb t t0 E0; [reflexivity|]. case_eqb t t0 E1; [reflexivity|lra].
+Qed.
+
+Theorem antideriv_total p t : sorted_strict (times p) -> tlast p <= t -> antideriv p t == area p.
+Proof. intros Hs Ht. unfold antideriv. rewrite (cut_left_all p t Hs Ht). reflexivity. Qed.
+
+(* prim_diff of DESIGN.md section 6 *)
+Theorem antideriv_diff p a b : sorted_strict (times p) -> a <= b ->
+  antideriv p b - antideriv p a == area_between a b p.
+Proof.
+  intros Hs Hab. unfold antideriv, area_between.
+  pose proof (area_cut a (cut_left b p) (sorted_cut_left b p Hs)) as H.
+  rewrite (area_cut_left_twice p a b Hs Hab) in H. lra.
+Qed.
+
+(* ------------------------------------------------------------------------------------------ *)
+(* corner-level bounds imply the bounds at every time *)
+
+Definition corner_bound (G : Q) (p : pwl) : Prop := Forall (fun tv => Qabs (snd tv) <= G) p.
+
+Fixpoint seg_bound (S : Q) (p : list (Q * Q)) : Prop :=
+  match p with
+  | (t0, v0) :: (((t1, v1) :: _) as r) => Qabs (v1 - v0) <= S * (t1 - t0) /\ seg_bound S r
+  | _ => True
+  end.
+
+Lemma seg_bound_cons2 S t0 v0 t1 v1 r :
+  seg_bound S ((t0, v0) :: (t1, v1) :: r) <->
+  Qabs (v1 - v0) <= S * (t1 - t0) /\ seg_bound S ((t1, v1) :: r).
+Proof. reflexivity. Qed.
+
+Lemma max_abs_le G p : 0 <= G -> corner_bound G p -> max_abs p <= G.
+Proof.
+  intros HG H. induction H as [|[t v] r Hv Hr IH]; [exact HG|].
+  cbn [max_abs]. apply Qmax_le_iff. split; [exact Hv|exact IH].
+Qed.
+
+Theorem corner_bound_everywhere G p : 0 <= G -> corner_bound G p -> forall t, Qabs (eval p t) <= G.
+Proof.
+  intros HG H t. eapply Qle_trans; [apply amp_bound|]. apply max_abs_le; assumption.
+Qed.
+
+Theorem corner_bound_everywhere_ne G p : p <> [] -> corner_bound G p -> forall t, Qabs (eval p t) <= G.
+Proof.
+  intros Hne H. apply corner_bound_everywhere; [|exact H].
+  destruct p as [|[t v] r]; [congruence|]. inversion H; subst. cbn [snd] in *.
+  pose proof (Qabs_nonneg v). lra.
+Qed.
+
+Lemma seg_slope_le S t0 v0 t1 v1 : t0 < t1 -> Qabs (v1 - v0) <= S * (t1 - t0) ->
+  Qabs (slope t0 v0 t1 v1) <= S.
+Proof.
+  intros H01 H. unfold slope. rewrite Qabs_Qmult.
+  assert (Hd : 0 < / (t1 - t0)) by (apply Qinv_lt_0_compat; lra).
+  rewrite (Qabs_pos (/ (t1 - t0))) by lra.
+  assert (E : S == S * (t1 - t0) * / (t1 - t0)) by (field; lra).
+  rewrite E. apply Qmult_le_compat_r; lra.
+Qed.
+
+Lemma seg_bound_nonneg S t0 v0 t1 v1 r : t0 < t1 -> seg_bound S ((t0, v0) :: (t1, v1) :: r) -> 0 <= S.
+Proof.
+  intros H01 [H _]. pose proof (Qabs_nonneg (v1 - v0)) as Hn.
+  destruct (Qlt_le_dec S 0) as [Hneg|Hpos]; [|exact Hpos].
+  exfalso. assert (P : 0 < (- S) * (t1 - t0)) by (apply Qmult_lt_0_compat; lra). lra.
+Qed.
+
+Lemma max_slope_le S p : 0 <= S -> sorted_strict (times p) -> seg_bound S p -> max_slope p <= S.
+Proof.
+  intros HS. induction p as [|[t0 v0] r IH]; intros Hs H; [exact HS|].
+  destruct r as [|[t1 v1] r]; [exact HS|].
+  pose proof Hs as Hs'. destruct Hs' as [H01 Hst]. cbn [fst] in H01.
+  apply seg_bound_cons2 in H. destruct H as [H1 H2].
+  rewrite max_slope_cons2. apply Qmax_le_iff. split.
+  - apply seg_slope_le; assumption.
+  - apply IH; assumption.
+Qed.
+
+Theorem seg_bound_everywhere S p : sorted_strict (times p) -> seg_bound S p ->
+  forall t u, inside p t -> inside p u -> Qabs (eval p t - eval p u) <= S * Qabs (t - u).
+Proof.
+  intros Hs H t u Ht Hu.
+  destruct p as [|[t0 v0] [|[t1 v1] r]].
+  - destruct Ht as [A B], Hu as [C D]. cbn in A, B, C, D.
+    assert (E : t - u == 0) by lra. rewrite E, !eval_nil.
+    setoid_replace (Qabs (0 - 0)) with 0 by reflexivity. change (Qabs 0) with 0. lra.
+  - destruct Ht as [A B], Hu as [C D]. cbn in A, B, C, D.
+    assert (E : t == u) by lra. rewrite E.
+    setoid_replace (eval [(t0, v0)] u - eval [(t0, v0)] u) with 0 by ring.
+    setoid_replace (u - u) with 0 by ring. change (Qabs 0) with 0. lra.
+  - pose proof Hs as Hs'. destruct Hs' as [H01 _]. cbn [fst] in H01.
+    pose proof (seg_bound_nonneg S _ _ _ _ _ H01 H) as HS.
+    eapply Qle_trans; [apply slope_bound; assumption|].
+    apply Qmult_le_compat_r; [|apply Qabs_nonneg].
+    apply max_slope_le; assumption.
+Qed.
+
+Theorem within_corners_implies_everywhere G S p :
+  0 <= G -> sorted_strict (times p) -> corner_bound G p -> seg_bound S p ->
+  (forall t, Qabs (eval p t) <= G) /\
+  (forall t u, inside p t -> inside p u -> Qabs (eval p t - eval p u) <= S * Qabs (t - u)).
+Proof.
+  intros HG Hs Hc Hseg. split.
+  - apply corner_bound_everywhere; assumption.
+  - apply seg_bound_everywhere; assumption.
+Qed.
